@@ -54,9 +54,40 @@ def main(argv):
                     failing.append((name, src, cfg, v, text))
         if len(ck.samples) < 4 and name.endswith("7"):
             ck.sample({"case": name, "source": src[:700], "verdicts": [v for _, v, _ in res]})
+    # simple statements of every target shape at every kind of position, with effectful probes as subexpressions:
+    # the ordered log of effects and the names bound must be the script's (harness/order_probe.py)
+    import order_probe, forms
+    n_probe = 200 if ck.tier == "quick" else 4000
+    fixed = [(src, u) for src in order_probe.index_programs("PROBE_") for u in (0, 4)]      # both unparsers
+    for i in range(n_probe + len(fixed)):
+        if i < len(fixed):
+            pl, src = "index-shapes", fixed[i][0]
+            cfg = gen_prog.CONFIGS[fixed[i][1] + (i + ck.seed) % 4]
+        else:
+            pl = order_probe.PLACEMENTS[i % len(order_probe.PLACEMENTS)]
+            src = order_probe.Gen(ck.rng, ).program_at(pl).replace("__probe", "PROBE_").replace("__dump", "DUMP_")
+            cfg = gen_prog.CONFIGS[(i * 3 + ck.seed) % 8]
+        try:
+            conv = ol.convert_code_string(src, configs=gen_prog.mk_configs(ol, cfg))
+        except BaseException as e:
+            failing.append(("probe@" + pl, src, cfg, f"fail:conversion raised {type(e).__name__}: {e}", None)); continue
+        for inplace in (True, False):
+            l0, e0 = order_probe.run(src, "exec", inplace, probe="PROBE_", dump="DUMP_")
+            if e0 is not None:
+                ck.count("probe_skipped_original_raises"); continue
+            l1, e1 = order_probe.run(conv, "eval", inplace, probe="PROBE_", dump="DUMP_")
+            ck.case(f"probe|{inplace}|{cfg}|{src}")
+            ck.count("probe_placement:" + pl)
+            if (l0, e0) != (l1, e1):
+                failing.append(("probe@" + pl, src, cfg, f"fail:effects differ (in-place operators {inplace}): original {l0} converted {l1} {e1 or ''}", conv))
+                break
     k_bad = []
     if b["driver_ok"]:
         pairs = [(src, (cfgs[0][1], cfgs[0][2])) for _, src, cfgs in items] + [(src, (cfgs[-1][1], cfgs[-1][2])) for _, src, cfgs in items[::3]]
+        # every statement form x placement of the catalogue (structure only: the emitted tree is the model's)
+        fps = [s_ for n_, s_ in forms.programs() if forms.compilable(s_)]
+        step = 2 if ck.tier == "quick" else 1
+        pairs += [(s_, (gen_prog.CONFIGS[(i + ck.seed) % 8][1], gen_prog.CONFIGS[(i + ck.seed) % 8][2])) for i, s_ in enumerate(fps) if (i + ck.seed) % step == 0]
         for src, cfg, ok, detail in lower_common.compare(ol, pairs):
             if ok:
                 ck.count("K_agree")
@@ -93,7 +124,8 @@ def main(argv):
     return ck.finish(
         rule="seeded structured programs of the supported fragment (feature mix counted under stats.feature:*), run to completion without exception, "
              "x 3 or 8 (quick) / 8 (thorough) option combinations, plus curated edge programs x 8; observable = stdout + user globals of exec(source) "
-             "vs eval(converted) in fresh namespaces; distinct by (config, source); non-trivial = the original ran to completion",
+             "vs eval(converted) in fresh namespaces; distinct by (config, source); non-trivial = the original ran to completion; plus random simple statements "
+             "with effectful probes at 10 kinds of position (ordered effect log + names bound), and the tree comparison K over the catalogue of statement forms x placements",
         extra={"R_failures": len(failing), "K_disagreements": len(k_bad), "programs": len(items)},
         assumptions=["the fragment generated avoids the shapes of the open known findings (known_findings.jsonl), which are replayed separately"])
 
